@@ -1623,7 +1623,7 @@ func init() {
 
 func init() {
 	register(&Rule{
-		ID: "C08.R8", Props: []string{"C08"}, Min: 4,
+		ID: "C08.R8", Props: []string{"C08", "C05"}, Min: 4,
 		Doc: "a variable is selected as a whole from one source: wherever one data source is merged over another (config files, Fill data, front-matter), the key is assigned in the accumulating map itself — never inside a map that was found as a value of that map (a nested, key-by-key merge of two sources' values). With a deep merge a variable defined by a higher-ranked source keeps sub-keys of the lower-ranked one, so the value a template sees comes from no single source",
 		Run: func(p *Prog, c *Ctx) {
 			roots := []*ssa.Function{p.MustFn("vuego.loadConfig"), p.MustFn("(*vuego.template).Fill"), p.MustFn("(*vuego.Vue).Render"), p.MustFn("(*vuego.Vue).RenderFragment"), p.MustFn("(*vuego.template).Load")}
